@@ -178,6 +178,17 @@ static std::string gepPath(Ctx &C, const GEPOperator *G, int depth) {
   auto bindStruct = [&](StructType *ST) {
     std::string b = llvmStructBase(ST);
     auto it = C.di.byName.find(b);
+    if (it == C.di.byName.end()) {
+      // C++: LLVM names are qualified (mtbb::task_list_node), DI names are not
+      size_t p = b.rfind("::");
+      if (p != std::string::npos) {
+        std::string tail = b.substr(p + 2);
+        size_t lt = tail.find('<');
+        auto it2 = C.di.byName.find(tail);
+        if (it2 == C.di.byName.end() && lt != std::string::npos) it2 = C.di.byName.find(tail.substr(0, lt));
+        if (it2 != C.di.byName.end()) { it = it2; b = it2->first; }
+      }
+    }
     if (it != C.di.byName.end()) { D = it->second; Dname = b; }
     else { D = nullptr; Dname = b.empty() ? "?" : b; }
   };
